@@ -26,7 +26,10 @@ RENAMES = {
 }
 SELF_NAMES = {"DDPDistributor", "HSDPDistributor", "HybridShardDistributor", "FSDPDistributor", "FullyShardDistributor", "Distributor"}
 
-DIST_COPIES = ["_distribute_buffer_sizes", "_split_local_dist_buffers", "_construct_distributed_buffers", "update_params", "all_gather_into_tensor", "merge_and_block_gradients"]
+DIST_COPIES = ["update_params", "all_gather_into_tensor", "merge_and_block_gradients"]
+# _distribute_buffer_sizes, _split_local_dist_buffers and _construct_distributed_buffers are no longer compared as text: every
+# copy is interpreted on concrete cases against the documented assignment / split / byte layout (c14 assignment-semantics,
+# split-semantics, buffer-layout), which decides each copy on its own and stays silent when one copy is re-spelled
 # _construct_global_block_info_list is NOT a sibling pair: HybridShard iterates its non-empty local shards, HSDP all parameters
 # (the owner cut per parameter is checked directly: c14 `owners-cut-by-block-index-range`)
 
